@@ -476,6 +476,11 @@ class Machine:
                 g = cand[0] if len(cand) == 1 else None
             if g is not None:
                 return self.call_fn(g, a)
+        if re.match(r"^core::ops::(function::)?(FnOnce|FnMut|Fn)::call(_once|_mut)?$", nm) and len(a) == 2:
+            # a closure passed as `impl Fn*`: the argument tuple is spread
+            tup = a[1]
+            params = [tup[k] for k in sorted(tup)] if isinstance(tup, dict) else [tup]
+            return self.call_closure(a[0], params)
         if nm in ("core::cmp::min", "core::cmp::max") and all(isinstance(x, int) and not isinstance(x, bool) for x in a[:2]):
             return min(a[0], a[1]) if nm.endswith("min") else max(a[0], a[1])
         if re.search(r"ChunksExact(Mut)?(::)?<'\w+, T>(>)?::(into_)?remainder$", nm):
@@ -1109,6 +1114,10 @@ class Machine:
         if cf is None:
             raise Unsupported("closure body %s not in the fact base" % clo["_closure"])
         holder = {"c": clo}
+        # Fn / FnMut bodies take the environment by reference, FnOnce bodies (a closure that moves its captures) by value
+        envty = cf.locals[1] if len(cf.locals) > 1 else "&"
+        if not envty.strip().startswith("&"):
+            return self.call_fn(cf, [clo] + list(params))
         return self.call_fn(cf, [("lref", holder, "c")] + list(params))
 
     def seq(self, ref):
